@@ -723,6 +723,7 @@ def has_import_cycle(p: Dict[str, Any]) -> bool:
     idx = module_index_by_qname(p)
     n = len(p["mods"])
     edges: Dict[int, set] = {i: set() for i in range(1, n + 1)}
+    hard: Dict[int, set] = {i: set() for i in range(1, n + 1)}     # needs the ATTRIBUTE of a package, set only when the sub-module import is over
     def add(i: int, q: Optional[str]) -> None:
         if not q:
             return
@@ -744,13 +745,19 @@ def has_import_cycle(p: Dict[str, Any]) -> bool:
                     add(i, tq + "." + op["orig"])
             elif op["k"] == "import":
                 add(i, ".".join(op["m"]))
+                # 'import a.b.c' binds 'a': reading a.b.c later goes through the attributes of a and a.b, which a package that is
+                # still being imported does not have yet
+                for k in range(1, len(op["m"])):
+                    j = idx.get(".".join(op["m"][:k + 1]))
+                    if j and j != i and not op["as"]:
+                        hard[i].add(idx.get(".".join(op["m"][:k])) or j)
     # a module depends on its parent package only for being importable; the package's __init__ importing the module back is a cycle
     # only if the module (transitively) needs something the package binds later - approximated conservatively: any cycle counts
     color: Dict[int, int] = {}
     def dfs(u: int) -> bool:
         color[u] = 1
         for v in edges[u]:
-            if v == p["mods"][u - 1]["par"]:
+            if v == p["mods"][u - 1]["par"] and v not in hard[u]:
                 continue                     # the parent package is already being imported when its sub-module runs
             c = color.get(v, 0)
             if c == 1 or (c == 0 and dfs(v)):
